@@ -217,3 +217,62 @@ func DiffsString(ds []Diff, n int) string {
 	}
 	return sb.String()
 }
+
+// ScribbleFile overwrites everything a user can reach in a File that a decode returned: every
+// element of every numeric slice, every numeric scalar of every message. The File belongs to the
+// caller; whatever the library keeps for later calls must not be reachable through it.
+func ScribbleFile(f *fit.File) (touched int) {
+	if f == nil {
+		return 0
+	}
+	var walk func(v reflect.Value, depth int)
+	walk = func(v reflect.Value, depth int) {
+		if depth > 6 {
+			return
+		}
+		switch v.Kind() {
+		case reflect.Ptr, reflect.Interface:
+			if !v.IsNil() {
+				walk(v.Elem(), depth+1)
+			}
+		case reflect.Struct:
+			if v.Type().PkgPath() == "time" {
+				return
+			}
+			for i := 0; i < v.NumField(); i++ {
+				if v.Type().Field(i).PkgPath != "" {
+					continue // unexported
+				}
+				walk(v.Field(i), depth+1)
+			}
+		case reflect.Slice, reflect.Array:
+			for i := 0; i < v.Len(); i++ {
+				walk(v.Index(i), depth+1)
+			}
+		case reflect.Uint8, reflect.Uint16, reflect.Uint32, reflect.Uint64:
+			if v.CanSet() {
+				v.SetUint(0x5A5A5A5A5A5A5A5A & (1<<uint(v.Type().Bits()) - 1))
+				touched++
+			}
+		case reflect.Int8, reflect.Int16, reflect.Int32, reflect.Int64:
+			if v.CanSet() {
+				v.SetInt(0x25)
+				touched++
+			}
+		case reflect.Float32, reflect.Float64:
+			if v.CanSet() {
+				v.SetFloat(-12345.5)
+				touched++
+			}
+		}
+	}
+	walk(reflect.ValueOf(&f.FileId), 0)
+	walk(reflect.ValueOf(f.FileCreator), 0)
+	walk(reflect.ValueOf(f.TimestampCorrelation), 0)
+	for _, a := range accessors(f) {
+		if c, err := a(); err == nil && c != nil && !reflect.ValueOf(c).IsNil() {
+			walk(reflect.ValueOf(c), 0)
+		}
+	}
+	return touched
+}
